@@ -177,4 +177,24 @@ theorem covSetsLoop_alias (site : String) (b : Bytes) (pos n o : Nat) (s : List 
     · simp only [Cost.add, Cost.tick] at hst
       rw [hst, Nat.succ_mul]; omega
 
+/-! ## the dispatch key collision (finding C02-dispatch-key) and its repair -/
+
+/-- the error class of an outcome -/
+def errOf : Outcome α → Option String
+  | .err e => some e
+  | _ => none
+
+/-- BEFORE the repair: for lookup type 6 the format words 21 and 0xFFCF had the uint16 keys 81
+(`readGsub8_1`) and 11 (`readGsub1_1`): the dispatcher ran a reader of another lookup type -/
+theorem readChainedOld_collision :
+    errOf (readChainedOld (hexB "0015000a00000000") 0) = some "other-reader" ∧
+    errOf (readChainedOld (hexB "ffcf000600050001") 0) = some "other-reader" := by
+  decide +kernel
+
+/-- AFTER the repair (gsub.go:42) both are refused as invalid -/
+theorem readChained_collision_refused :
+    errOf (readChained (hexB "0015000a00000000") 0) = some "invalid" ∧
+    errOf (readChained (hexB "ffcf000600050001") 0) = some "invalid" := by
+  decide +kernel
+
 end SfntV.Total.ChainCtx
